@@ -259,6 +259,10 @@ type liveObj struct {
 	recs   []pack.TextRec // mirror of a TextPack's records (no public reader)
 	lic    string
 	log    []string // what was done to the object, in order
+
+	lastPayload  []byte // payload of the previous send
+	mutated      bool   // mutated since the previous send
+	lastReserved bool   // event: the state before the previous send held user attributes under reserved keys
 }
 
 // dumpPack: "<type> k=v …" from the object's current public state (without lic / go).
